@@ -47,7 +47,8 @@ def run(ctx: Ctx, rep: Report) -> None:
     rep.rule("C06-R2", "the modules that register the SNMP types are imported unconditionally from the package root", floor=2)
     rep.rule("C06-R3", "decoders read fields in the order and at the index / mask their encoders and the RFCs use", floor=10)
     rep.rule("C06-R4", "unsigned application types decode unsigned", floor=4)
-    rep.rule("C06-R5", "operations hand every response value (exception markers included) to the caller: complete, unfiltered, in order", floor=2)
+    rep.rule("C06-R6", "encrypted responses: the decrypted octets are parsed unmodified and replace only the ciphertext (shared with C11-R2)", floor=3)
+    rep.rule("C06-R5", "operations hand every response value (exception markers included) to the caller: complete, unfiltered, in order (get / getnext / set: shared with C04-R3/R5)", floor=8)
     rep.assumptions += [
         "x690.decode / Integer / OctetString / ObjectIdentifier / Null implement BER for all values and definite length forms (numeric; analysed only structurally, see C20 for the TLV walker)",
     ]
@@ -85,7 +86,10 @@ def run(ctx: Ctx, rep: Report) -> None:
             ok = ctx.r.is_subclass(cls, octets) and "PRIMITIVE" in nat
         rep.check(ok, "C06-R1", site, f"application tag {tag} is {name}: {'unsigned INTEGER' if kind == 'unsigned' else 'OCTET STRING based'}, primitive", f"natures {nat}; bases {[b.name for b in ctx.r.mro(cls)[1:3]]}", key=f"app-type|{tag}|kind")
     extra = sorted({(tg, c.name) for (tc, tg, n), cl in regs.items() if tc == "APPLICATION" and tg not in rfc.APPLICATION_TYPES for c in cl})
-    rep.check(all(tg == 5 for tg, _ in extra), "C06-R1", "puresnmp/types.py", "no other application tag is registered (NsapAddress, tag 5, is historic and tolerated)", f"{extra}", key="app-type|extra")
+    # tags outside RFC 2578's table (NsapAddress 5, UInteger32 7 of the historic SMIs, ...) are outside the property's
+    # quantifier; they cannot shadow an RFC tag because every RFC tag must have exactly one owner (above) and
+    # registry keys must not collide (below)
+    rep.ok("C06-R1", "puresnmp/types.py", "application tags outside RFC 2578 do not take the place of an RFC type", f"additional tags: {extra}")
     # exception markers
     for name, tag in sorted(rfc.EXCEPTION_MARKERS.items()):
         cls = ctx.u.classes.get(f"puresnmp.pdu:{name}")
@@ -289,6 +293,11 @@ def run(ctx: Ctx, rep: Report) -> None:
     rep.check(okm, "C06-R3", md.site(), "Message.decode picks EncryptedMessage exactly when element [3] is an OCTET STRING, else PlainMessage", key=f"{md.key}|class-selection")
 
     check_value_delivery(ctx, rep)
+    # encrypted responses: what is parsed is the privacy plug-in's output, octet for octet
+    from . import c11
+
+    sub = ctx.sub_run("c11", rep)
+    rep.adopt_rules(sub, "C06-R6", ["C11-R2"])
 
     # ------------------------------------------------------------ R4
     integer_dr = ctx.u.cls("x690.types:Integer").methods.get("decode_raw")
@@ -306,6 +315,10 @@ def run(ctx: Ctx, rep: Report) -> None:
         dr = ctx.r.method(cls, "decode_raw")
         uses = dr is not None and any(isinstance(n, ast.keyword) and n.arg == "signed" and norm(n.value) == "cls.SIGNED" for n in ast.walk(dr.node))
         rep.check(signed is False and uses, "C06-R4", f"{cls.module.path}:{cls.node.lineno} ({cls.name})", f"{name} decodes with signed=cls.SIGNED and SIGNED evaluates to False", f"SIGNED={signed!r}, decode_raw={dr.key if dr else None}", key=f"{cls.key}|unsigned-decode")
+    from . import c17
+
+    sub = ctx.sub_run("c17", rep)
+    rep.adopt_rules(sub, "C06-R4", ["C17-R4"])
 
 
 def check_value_delivery(ctx: Ctx, rep: Report) -> None:
@@ -334,6 +347,12 @@ def check_value_delivery(ctx: Ctx, rep: Report) -> None:
             ok = kind == FAITHFUL and not cont.cuts
             detail = f"scalars <- {norm(src)[:60]}: kind {kind} {why}; cuts: {cont.cuts}"
         rep.check(ok, "C06-R5", bg.site(), "bulkget reports every non-repeater binding of the response as it was sent (an endOfMibView value of a scalar is a value, not a cut-off)", detail, key=f"{bg.key}|scalar-values-dropped")
+    # the single-value operations hand out the value of the response binding whatever it is (Null, 0 and empty
+    # strings included); only the noSuchObject / noSuchInstance classes are turned into NoSuchOID
+    from . import c04
+
+    sub = ctx.sub_run("c04", rep)
+    rep.adopt_rules(sub, "C06-R5", ["C04-R3", "C04-R5"])
 
 
 def import_reaches(ctx: Ctx, mod: Module, target: str, seen) -> Tuple[bool, str]:
